@@ -157,8 +157,17 @@ def wrapped_emit(ex, args, callee):
 
 
 def wrapped_flush(ex, args, callee):
-    op(ex, 'wrapped_flush', None)
-    return Native('FlushResultToken', None, fresh_id())
+    # the wrapped sink's flush is environment: Ok(()) or Err(e); the result is remembered so that the caller's own
+    # result can be compared with it
+    k = ex.nondet(2, 'wrapped_flush')
+    if k == 0:
+        op(ex, 'wrapped_flush', 'ok')
+        ex.out.setdefault('wrapped_flush_results', []).append(('ok', None))
+        return ok(UNIT)
+    tok = env_io.io_error(ex, 'wrapped-flush-%d' % len(ex.ops))
+    op(ex, 'wrapped_flush', 'err')
+    ex.out.setdefault('wrapped_flush_results', []).append(('err', tok.ident))
+    return err(tok)
 
 
 def wrapped_stats(ex, args, callee):
@@ -228,6 +237,7 @@ def install_oracle(ex: Explorer):
     ex.stubs['Sender::is_full'] = q_is_full
     ex.stubs['Receiver::recv'] = q_recv
     ex.stubs['Receiver::try_recv'] = q_try_recv
+    ex.stubs['Receiver::try_iter'] = lambda ex, args, callee: Native('QTryIter', 0, fresh_id())
     ex.stubs['Receiver::iter'] = q_iter
     ex.stubs['Receiver::is_empty'] = q_is_empty
     ex.stubs['Receiver::is_full'] = q_is_full
